@@ -797,7 +797,7 @@ func (push *Push) getEVMEvent(subscribe *types.PushSubscribeReq, startSeq int64,
 			totalSize += size
 			chainlog.Debug("get EVMEvent subscribed for pushing", "Name", subscribe.Name, "contract:", subscribe.Contract,
 				"height=", evmLogsPerBlk.Height)
-		} else if totalSize+size > maxSize {
+		} else if totalSize+size >= maxSize {
 			break
 		}
 		actualIterCount++
@@ -862,7 +862,7 @@ func (push *Push) getTxReceipts(subscribe *types.PushSubscribeReq, startSeq int6
 			totalSize += size
 			chainlog.Debug("get Tx Receipts subscribed for pushing", "Name", subscribe.Name, "contract:", subscribe.Contract,
 				"height=", txReceiptsPerBlk.Height)
-		} else if totalSize+size > maxSize {
+		} else if totalSize+size >= maxSize {
 			break
 		}
 		actualIterCount++
